@@ -271,13 +271,16 @@ Definition dl_ms (d : option Z) : option N :=
   match d with Some ns => let ms := ns / 1000000 in if ms <=? u64_max then Some (Z.to_N ms) else None | None => None end.
 
 (* state_machine.rs:1238-1272 report_omaha_event_and_update_context *)
+Definition report_ops (ev : event) (apps : list app) (nv : nvmap) (dur : option Z) : list op :=
+  flat_map (fun a => match nv_get nv (a_id a) with
+                     | Some next => [OpEvent a {| ev_type := ev_type ev; ev_result := ev_result ev; ev_err := ev_err ev;
+                                                  ev_prev := Some (Version.print (a_ver a)); ev_next := next;
+                                                  ev_dl := dl_ms dur |}]
+                     | None => [] end) apps.
+
 Definition report_event (p : params) (ev : event) (apps : list app) (sess : N) (nv : nvmap) (dur : option Z) (m : sm)
   : M sm :=
-  let ops := flat_map (fun a => match nv_get nv (a_id a) with
-                                | Some next => [OpEvent a {| ev_type := ev_type ev; ev_result := ev_result ev; ev_err := ev_err ev;
-                                                             ev_prev := Some (Version.print (a_ver a)); ev_next := next;
-                                                             ev_dl := dl_ms dur |}]
-                                | None => [] end) apps in
+  let ops := report_ops ev apps nv dur in
   req <- fresh_guid ;;
   (* canonical ids are assigned only if the request is actually put on the wire *)
   let b0 := add_ops (builder_new p) ops in
